@@ -381,12 +381,17 @@ def make_readers(k, rs, fut, via_call, seen):
 
 def make_shared(fk, src, meta):
     """A failed future that is not a task, holding an exception instance it was handed: the error a
-    failed task ended with.  None: the task did not fail."""
+    failed task ended with / an instance prepared for re-raising outside any task / one never raised.
+    None: the task did not fail."""
     sk, sa = ctor(src)
     if sk == "EOfTask":
         err = make_chain(sa[0], sa[1], meta)[0].asynq().error()
         if err is None:
             return None
+    elif sk == "EPrepared":
+        err = prep_site()
+    elif sk == "EFresh":
+        err = Boom("never raised")
     else:
         raise ValueError(sk)
     if fk == "KErrorFuture":
